@@ -171,6 +171,14 @@ def handle (args : List Sexp) : String :=
       | some t => "ok " ++ showTy t
       | none => "ok none"
     | none => "err bad-args"
+  | [.atom "hidden", d] =>
+    match d.asNat? with
+    | some d =>
+      match Gen.C16.dispatchers[d]? with
+      | some dt => "ok (" ++ " ".intercalate ((hiddenAmbiguities E dt.sigs).map fun p =>
+          "(" ++ toString p.1 ++ " " ++ toString p.2 ++ ")") ++ ")"
+      | none => "err no-such-dispatcher"
+    | none => "err bad-args"
   | [.atom "ntab"] => "ok " ++ toString Gen.C16.dispatchers.length
   | _ => "err bad-request"
 
